@@ -278,7 +278,7 @@ pub fn steered_server_keys(report: &Report, tier: Tier, seed: u64) {
             }
         }
     }
-    let bs: Vec<[u8; 32]> = vec![le32_from_u64(5), refmodel::ctr_array::<32>(seed, "steer-b"), [0xFF; 32]];
+    let bs: Vec<[u8; 32]> = vec![le32_from_u64(5), ordinary_key(seed, "steer-b"), [0xFF; 32]];
     let two256 = {
         let mut b = [0u8; 33];
         b[32] = 1;
@@ -390,9 +390,9 @@ pub fn announced_groups(report: &Report, tier: Tier, seed: u64) {
     let mods = moduli();
     let gens: Vec<u8> = (0..=255).collect(); // 0 and 1 are generators a server can announce too (0^0 = 1 with an all-zero private key)
     let a_alpha: Vec<[u8; 32]> = if tier == Tier::Thorough {
-        vec![le32_from_u64(1), le32_from_u64(2), le32_from_u64(255), n_plus(-1), [0xFF; 32], refmodel::ctr_array::<32>(seed, "grp-a0"), refmodel::ctr_array::<32>(seed, "grp-a1"), [0u8; 32]]
+        vec![le32_from_u64(1), le32_from_u64(2), le32_from_u64(255), n_plus(-1), [0xFF; 32], ordinary_key(seed, "grp-a0"), ordinary_key(seed, "grp-a1"), [0u8; 32]]
     } else {
-        vec![le32_from_u64(2), refmodel::ctr_array::<32>(seed, "grp-a0"), [0u8; 32]]
+        vec![le32_from_u64(2), ordinary_key(seed, "grp-a0"), [0u8; 32]]
     };
     let b_alpha: Vec<[u8; 32]> = if tier == Tier::Thorough {
         vec![le32_from_u64(1), le32_from_u64(2), le32_from_u64(1234567), n_plus(-1), n_plus(1), [0xFF; 32], refmodel::ctr_array::<32>(seed, "grp-B0")]
